@@ -84,6 +84,15 @@ def one(cases, rng, tier, d, rep, dtname):
             box, impl = boxed(lambda A=A: A.t())
             cases.append(Case(J("t", tt_tokens(A)), impl,
                               chk_tt(box, lambda: mat(dA, M, K).T.reshape(K + M), dt, RA, M, M=K, is_ttm=True), "t/" + tag, nt))
+            # operations on the TRANSPOSED operator (its cores are permuted views, not contiguous arrays): scalar *, /, +, unary -, product
+            dAt = mat(dA, M, K).T.reshape(K + M)
+            st_ = rng.choice([2, -3, 2.5, -0.5])
+            for nm, f, dn in (("t-smul", lambda A=A, st_=st_: A.t() * st_, lambda dAt=dAt, st_=st_: dAt * st_), ("t-rsmul", lambda A=A, st_=st_: st_ * A.t(), lambda dAt=dAt, st_=st_: st_ * dAt),
+                              ("t-sdiv", lambda A=A: A.t() / 4.0, lambda dAt=dAt: dAt / 4.0), ("t-neg", lambda A=A: -(A.t()), lambda dAt=dAt: -dAt),
+                              ("t-add-self", lambda A=A: A.t() + A.t(), lambda dAt=dAt: dAt + dAt), ("t-t-smul", lambda A=A, st_=st_: (A.t() * st_).t(), lambda st_=st_: dA * st_)):
+                box, impl = boxed(f)
+                ttm_M, ttm_N = (K, M) if nm != "t-t-smul" else (M, K)
+                cases.append(Case(None, impl, chk_tt(box, dn, dt, None, ttm_N, M=ttm_M, is_ttm=True), "%s/%s" % (nm, tag), nt, desc="%s M=%s N=%s" % (nm, M, K)))
             # full
             box, impl = boxed(lambda A=A: A.full())
             cases.append(Case(J("full", tt_tokens(A)), impl, chk_val(box, lambda: dA), "full/" + tag, nt))
